@@ -206,6 +206,14 @@ func init() {
 		for i := 0; i < b.Layout().Stride(); i++ {
 			out = append(out, b.Min(i), b.Max(i))
 		}
+		// the box is the caller's: used as an accumulator right away
+		if n := b.Layout().Stride(); n > 0 {
+			args := make([]float64, 2*n)
+			for i := range args {
+				args[i] = -6.5e7 - float64(i)
+			}
+			b.Set(args...)
+		}
 		return out
 	})
 	reg("T.Empty", []string{"g"}, func(c *Call, a []*item) any { return a[0].g.Empty() })
